@@ -178,6 +178,8 @@ func (nz *normalizer) sqlToBindvar(node SQLNode) *querypb.BindVariable {
 		switch node.Type {
 		case StrVal:
 			v, err = sqltypes.NewValue(sqltypes.VarBinary, node.Val)
+		case PgEscapeString:
+			v, err = sqltypes.NewValue(sqltypes.VarBinary, node.Val)
 		case IntVal:
 			v, err = sqltypes.NewValue(sqltypes.Int64, node.Val)
 		case FloatVal:
